@@ -14,7 +14,7 @@ RULE = ("cases: (value, linear factor k, second value, component, ordered unit t
         "1e-12..1e6, components built-in or random molar mass 1..1000; rejection part: missing component with kg/(m2 h kPa) "
         "on either side, generated unknown unit names on either side, negative/NaN values for the clamp. "
         "non-trivial = value>0 and A!=B (conversion part) / every rejection case; distinct = SHA-1 of the case JSON")
-ASSUMPTIONS = ["absolute factors as stated in the property: 1 kg/(m2 h kPa) = 1/(3600 M) SI, 1 GPU = 3.35e-10 SI",
+ASSUMPTIONS = ["a Permeance object may be asked any number of times, for different components; negative values of any numeric type are clamped", "absolute factors as stated in the property: 1 kg/(m2 h kPa) = 1/(3600 M) SI, 1 GPU = 3.35e-10 SI",
                "relative tolerance 1e-14 for a handful of multiplications/divisions"]
 TOL = 1e-14
 TRIPLES = list(itertools.product(gen.UNITS, repeat=3))
@@ -76,6 +76,15 @@ def check(case):
     require_close(_conv(k * v, a, b, comp), k * ab, 4 * TOL, "homogeneity %s->%s k=%r v=%r" % (a, b, k, v))
     s = _conv(v + v2, a, b, comp)
     require_close(s, ab + _conv(v2, a, b, comp), 4 * TOL, "additivity %s->%s of %r+%r" % (a, b, v, v2))
+    # one Permeance object asked repeatedly: first for another component (different molar mass), then for this one, then again
+    other = build.component({"builtin": "EtOH" if abs(mw - 46.07) > 1.0 else "H2O"})
+    p = build.permeance(v, a)
+    call(p.convert, build.fresh(b), other)
+    for _ in range(2):
+        again = call(p.convert, build.fresh(b), comp)
+        require(not is_raised(again) and again.units == b, "a Permeance object converted a second time (%s->%s) gives %r", a, b, again)
+        require_close(again.value, ab, TOL, "a Permeance object converted %s->%s for another component first, then for M=%r" % (a, b, mw))
+    require(p.value == v and p.units == a, "convert modified the Permeance object it was called on: %r", p)
     # conversions that do not involve the mass unit need no component
     if "kg/(m2*h*kPa)" not in (a, b):
         require_close(_conv(v, a, b, None), ab, TOL, "%s->%s without component" % (a, b))
@@ -94,6 +103,7 @@ def rej_strategy(tier):
         st.fixed_dictionaries({"kind": st.just("clamp"),
                                "value": st.one_of(st.floats(allow_nan=True, allow_infinity=False),
                                                   gen.loguniform(1e-12, 1e6).map(lambda x: -x)),
+                               "form": st.sampled_from(["float", "float", "int", "numpy.int64", "numpy.float32", "numpy.float64"]),
                                "units": st.sampled_from(gen.UNITS)}),
     )
 
@@ -106,6 +116,13 @@ def check_rej(case):
         out = call(build.permeance(case["value"], frm).convert, to, None)
         if not is_raised(out):
             raise Violation("convert %s->%s without a component returned %r instead of raising" % (frm, to, out))
+        # the same object asked first WITH a component (fine), then without: the second call still has nothing to convert with
+        used = build.permeance(case["value"], frm)
+        call(used.convert, to, build.component({"builtin": "H2O"}))
+        out = call(used.convert, to, None)
+        if not is_raised(out):
+            raise Violation("a Permeance object converted %s->%s with a component first and then without one returned %r instead of raising"
+                            % (frm, to, out))
         # the same for a Permeance that is itself the result of an earlier conversion WITH a component
         comp = build.component({"builtin": "EtOH"})
         src = "SI" if frm == kg else kg
@@ -123,12 +140,29 @@ def check_rej(case):
         if not is_raised(out):
             raise Violation("convert %r->%r (unknown unit) returned %r instead of raising" % (frm, to, out))
         return {"nontrivial": True, "classes": ["unknown:%s" % case["side"]]}
-    p = call(build.permeance, case["value"], case["units"])
-    require(not is_raised(p), "Permeance(%r) raised %r", case["value"], p)
-    require(p.value >= 0, "Permeance(%r).value = %r is negative/NaN", case["value"], p.value)
-    if case["value"] >= 0:
-        require(p.value == case["value"], "Permeance(%r) stored %r", case["value"], p.value)
-    return {"nontrivial": not case["value"] >= 0, "classes": ["clamp"]}
+    import numpy
+
+    value, form = case["value"], case.get("form", "float")
+    if form in ("int", "numpy.int64"):  # the nearest whole number away from zero, as an integer type
+        if value != value or abs(value) > 1e15:
+            form = "float"
+        else:
+            value = int(math.copysign(math.ceil(abs(value)), value))
+            value = numpy.int64(value) if form == "numpy.int64" else value
+    elif form == "numpy.float32":
+        value = numpy.float32(value)
+        if not numpy.isfinite(value) and case["value"] == case["value"]:
+            value, form = case["value"], "float"
+    elif form == "numpy.float64":
+        value = numpy.float64(value)
+    p = call(build.permeance, value, case["units"])
+    require(not is_raised(p), "Permeance(%r) raised %r", value, p)
+    require(p.value >= 0, "Permeance(%r as %s).value = %r is negative/NaN", value, form, p.value)
+    if value >= 0:
+        require(p.value == value, "Permeance(%r) stored %r", value, p.value)
+    same = call(p.convert, build.fresh(case["units"]), None)
+    require(not is_raised(same) and same.value >= 0, "Permeance(%r as %s) converted to its own unit gives %r", value, form, same)
+    return {"nontrivial": not value >= 0, "classes": ["clamp", "clamp:" + form]}
 
 
 PARTS = [
